@@ -42,7 +42,7 @@ def main():
     props = a.props or [prop]
     patch = os.path.join(seed, "patch.diff")
     demo_src = os.path.join(seed, "demo.rs")
-    demo_loc = meta.get("demo_location")
+    demo_loc = (meta.get("demo_location") or "").split()[0].strip("`,;") if meta.get("demo_location") else None
     log = {}
     confirmed = None
     if not a.skip_confirm:
@@ -64,7 +64,16 @@ def main():
             rc_demo1, out_demo1 = run(["cargo", "test", "--offline", "-p", pkg, "--test", test_name], wt)
             log["demo_with_change"] = {"rc": rc_demo1, "tail": out_demo1[-2500:]}
         finally:
+            # cargo's freshness check compares mtimes: a revert that lands in the same timestamp tick as the end of the previous build would
+            # leave the patched binary in place; wait a tick and bump the mtime of every reverted file
+            import time
+            time.sleep(1.5)
             run(["git", "checkout", "--", "."], wt)
+            for l in open(patch):
+                if l.startswith("+++ b/"):
+                    fp = os.path.join(wt, l[6:].strip())
+                    if os.path.exists(fp):
+                        os.utime(fp, None)
         # 2. without the change
         try:
             rc_demo2, out_demo2 = run(["cargo", "test", "--offline", "-p", pkg, "--test", test_name], wt)
@@ -72,6 +81,8 @@ def main():
         finally:
             if os.path.exists(demo_dst):
                 os.remove(demo_dst)
+        if rc_demo2 != 0:
+            print("demo without the change failed:\n" + out_demo2[-2500:])
         compiled = "error: could not compile" not in out_demo1 and "error[E" not in out_demo1
         confirmed = (rc_suite == 0 and rc_demo1 != 0 and compiled and rc_demo2 == 0)
         print("suite with change: rc=%d | demo with change: rc=%d (compiled=%s) | demo without: rc=%d  => confirmed=%s" % (
